@@ -417,8 +417,12 @@ def case_eval_statements(ctx):
             fields.append(tgt)
     exp = {ff: env[ff] for ff in list(schema[nest]) + [newname]}
     exp["fields"] = fields
+    # K11: a statement that names BOTH of two sibling fields whose cleaned names coincide
+    pairs = [(f, g) for fs in schema.values() for f in fs for g in fs if f < g and clean(f) == clean(g)]
+    both = any(bq(f) in line and bq(g) in line for line in prog.split("\n") for f, g in pairs)
     ncase(ctx, "names.eval_statements", {"program": prog, "schema": schema_json(nf, schema)}, call_real(run), None, {"ok": exp},
-             features=("eval_statements",), nontrivial=True)
+             hyp={**dict(getattr(ctx, "_names_hyp", {})), "clean_collision_both": both},
+             features=("eval_statements", f"clean_collision_both={both}"), nontrivial=True)
 
 
 def case_keys_across_nests(ctx):
